@@ -291,10 +291,11 @@ Definition setup1_byte (s : setup1) (b : N) : res setup1 :=
     Ok (set_s1_d (set_s1_caps s (fst r)) (snd r))
   else if st =? S1_BYTECOUNT then
     do r <- read_ule16 d b (s1_bc s) S1_SECURITYBLOB;
-    Ok (set_s1_d (set_s1_bc s (fst r)) (snd r))
+    (* an empty security blob: there is nothing more to read *)
+    Ok (set_s1_d (set_s1_bc s (fst r))
+                 (if (d_st (snd r) =? S1_SECURITYBLOB) && (s1_sec_len s =? 0) then d_next S1_END else snd r))
   else if st =? S1_SECURITYBLOB then
-    (* counts blob bytes against SecurityBlobLength (ByteCount is not used);
-       with SecurityBlobLength = 0 the counter starts at 1 and End is never reached *)
+    (* counts blob bytes against SecurityBlobLength (ByteCount is not used) *)
     Ok (set_s1_d s (d_when (d_inc d) S1_END (s1_sec_len s)))
   else Ok s.
 
@@ -633,10 +634,12 @@ Definition setup2_byte (s : setup2) (b : N) : res setup2 :=
     Ok (set_s2_d (set_s2_sec_len s (fst r)) (snd r))
   else if st =? S2_PREVIOUSSESSIONID then
     do r <- read_ule64 d b (s2_prev_session s) S2_SECURITYBLOB;
-    Ok (set_s2_d (set_s2_prev_session s (fst r)) (snd r))
+    (* an empty security buffer: there is nothing more to read *)
+    Ok (set_s2_d (set_s2_prev_session s (fst r))
+                 (if (d_st (snd r) =? S2_SECURITYBLOB) && (s2_sec_len s =? 0) then d_next S2_END else snd r))
   else if st =? S2_SECURITYBLOB then
     (* the blob is taken to start right after PreviousSessionId (SecurityBufferOffset
-       is not used); with SecurityBufferLength = 0 End is never reached *)
+       is not used) *)
     Ok (set_s2_d s (d_when (d_inc d) S2_END (s2_sec_len s)))
   else Ok s.
 
